@@ -1,6 +1,6 @@
 (* C08 -- reported progress always matches the batches that really finished. *)
 From XV Require Import Prelude Grid Perm Runner Batch Crop GenReap BridgeReap
-     GridProofs PermProofs RunnerProofs BatchProofs AssocProofs CropProofs ReapProofs ProgressProofs.
+     GridProofs PermProofs RunnerProofs BatchProofs AssocProofs CropProofs ReapProofs ProgressProofs TearProofs.
 From XV Require Sched GenPublish BridgePublish GenBatch BridgeBatch.
 Open Scope Z_scope.
 
@@ -105,6 +105,32 @@ Theorem C08_code_tie :
   /\ (forall nb e, gen_missing_range nb = (1, nb + 1) /\ gen_no_result e = negb e).
 Proof. exact (conj bridge_is_ready bridge_missing). Qed.
 
+(* a finished result torn from outside (truncated, as network file systems have been seen to leave one): after any
+   history, check_bad reports exactly that batch and deletes exactly that file -- every other finished batch stays
+   finished, the torn one is missing again *)
+Theorem C08_torn_result_reported_exactly : forall (R : Type) (g : kwargs -> R) (i : input) bl (d : @disk R) (id : Z),
+  Inv g i bl d -> finished d id = true ->
+  check_bad (torn d id) = ([id], delete_result d id)
+  /\ (forall j, finished (delete_result d id) j = if j =? id then false else finished d j).
+Proof.
+  intros R g i bl d id HI Hfin. pose proof HI as [HS HR]. split.
+  - unfold finished, zmem in Hfin. destruct (zlookup id (d_results d)) as [rs|] eqn:E; [|discriminate].
+    destruct (ri_content g bl d HR id rs E) as (Hk & b & Hb & _).
+    apply (torn_check_bad d id b).
+    + pose proof (check_bad_inv g i bl d HI) as Hc. unfold check_bad in Hc. injection Hc as Hbad _.
+      intros x Hx. destruct (is_bad d x) eqn:Eb; [|reflexivity]. exfalso.
+      assert (Hin : In (fst x) (map fst (filter (is_bad d) (d_results d)))).
+      { apply in_map, filter_In. split; assumption. }
+      rewrite Hbad in Hin. exact Hin.
+    + rewrite (sw_batches i bl d HS id Hk). exact Hb.
+    + pose proof (sw_nonempty i bl d HS) as Hf. rewrite Forall_forall in Hf. apply Hf. eapply nth_error_In, Hb.
+  - intros j. unfold finished, zmem, delete_result. cbn [d_results].
+    destruct (Z.eqb_spec j id) as [->|Hne].
+    + rewrite zlookup_zremove_same. reflexivity.
+    + rewrite zlookup_zremove_other by exact Hne. reflexivity.
+Qed.
+
+Print Assumptions C08_torn_result_reported_exactly.
 Print Assumptions C08_failed_write_not_recorded.
 Print Assumptions C08_publication_tie.
 Print Assumptions C08_reports_follow_the_disk.
